@@ -2106,6 +2106,9 @@ emit_single_member_PER_constraint(arg_t *arg, asn1cnst_range_t *range, int alpha
 		}
 		OINTS(range->left.value); OUT(", ");
 		OINTS(range->right.value); OUT(" }");
+	} else if(range->extensible) {
+		/* No lower bound; the extension bit is there nevertheless (X.691 #12.1) */
+		OUT("{ APC_UNCONSTRAINED | APC_EXTENSIBLE,  -1, -1,  0,  0 }");
 	} else {
 		OUT("{ APC_UNCONSTRAINED,\t-1, -1,  0,  0 }");
 	}
